@@ -366,6 +366,32 @@ fn gen(rng: &mut Rng, n: usize, _tier: &str) -> Vec<String> {
             out.push(format!("{}{}s{} {}", strat2, rng.below(7), if rng.chance(1, 2) { 1 } else { 3 }, body));
         }
     }
+    // rival-conclusion family: several applicable rules assign DIFFERENT literals to the goal's field (directly or
+    // one level down); whichever candidate order the engine's HashSet yields, a query reported provable must hand
+    // back facts in which the goal comparison is true. Each problem is asked under every strategy, several times.
+    for _ in 0..n / 10 {
+        let vals = ["t", "f", "n1", "n2"];
+        let want = *rng.pick(&vals);
+        let mut rules = Vec::new();
+        let via = rng.chance(1, 2);
+        if via {
+            rules.push("F6.eq.n1~F0:=t".to_string());
+        }
+        let src = if via { "F0.eq.t" } else { "F6.eq.n1" };
+        rules.push(format!("{}~F5:={}", src, want));
+        for _ in 0..rng.range(1, 2) {
+            let other = *rng.pick(&vals);
+            let c = if rng.chance(1, 2) { "F6.eq.n1" } else { src };
+            rules.push(format!("{}~F5:={}", c, other));
+        }
+        rng.shuffle(&mut rules);
+        let body = format!("F6=n1 F5.eq.{} {}", want, rules.join(";"));
+        for strat in ["D", "B", "I"] {
+            for _ in 0..2 {
+                out.push(format!("{}{}s1 {}", strat, rng.range(2, 4), body));
+            }
+        }
+    }
     out
 }
 
